@@ -81,16 +81,17 @@ Theorem fenchel_young_equality_at_gradient :
 Proof. exact grad_equality_tree. Qed.
 Print Assumptions fenchel_young_equality_at_gradient.
 
-(* T2 (partial)  f.convex_conj.convex_conj takes the same values as f, for every tree on which the
-   library can evaluate both:  [veq (Ok a) (Ok b)] is equality of extended values (finite values equal
-   as reals, +inf = +inf).  The trees for which f** is only the unevaluable default conjugate (Huber,
-   QuadraticPerturb with a <> 0 inside a conjugate, ...) make the premise false.
-   FULL STATEMENT = the same without [B e].  It was false of the library before fix de676f9
-   (FunctionalDefaultConvexConjugate inherited the linear flag; finding defaultconj-linear-flag, now
-   fixed and guarded by a probe).  [B] (C08/Biconj.v) still excludes scalar multiples s*f, f(s.) of a
-   functional whose CONJUGATE is flagged linear (Functional.__mul__ then builds a LeftScalarMult, e.g.
-   2 * IndicatorZero) and QuadraticForm with both operator and vector: compared by the correspondence
-   (k_ccshape, k_ccval) and the 'biconj' probes only -- not refuted, not proved. *)
+(* T1  f.convex_conj.convex_conj takes the same values as f, for every tree on which the library can
+   evaluate both: [veq (Ok a) (Ok b)] is equality of extended values (finite values equal as reals,
+   +inf = +inf).  Trees for which f** is only the unevaluable default conjugate (Huber, QuadraticPerturb with
+   a <> 0 inside a conjugate, ...) make the premise false.  Includes the LeftScalarMult that
+   Functional.__mul__ builds when the conjugate is flagged linear (e.g. 2 * IndicatorZero: [zi] shows such
+   functionals only take the values 0 and +inf) and QuadraticForm with operator and vector.
+   [B e] (C08/Biconj.v) is the same single clause as in [D]: no reflection f(s .), s < 0, of a functional
+   whose conjugate is flagged linear -- there the library's conjugate is a LeftScalarMult with a negative
+   scalar whose own convex_conj raises ValueError, i.e. the biconjugate cannot be evaluated (hence the name
+   _partial is kept only because that last fact is not proved for un-merged nested reflections).
+   Before fix de676f9 of /repo the statement was false (finding defaultconj-linear-flag, guarded by a probe). *)
 Theorem biconjugate_partial :
   forall (sqrtf : R -> R), (forall a, 0 <= a -> 0 <= sqrtf a /\ sqrtf a * sqrtf a = a) ->
   forall (e e' e'' : fxR) (n : nat) (w x : list R) (vx vxx : extR),
